@@ -76,6 +76,7 @@ def array_job(j):
     name, saved, seed = j
     cfg = saved["cfg"]
     L = X.materialize(cfg, saved, seed)
+    L.selftest = True       # the reference arrays are read the way a user runs the tool, start-up self test included
     v = []
     golden_tree = X.data_tree(L)
     golden_content = {p: labmod._slurp(p) for p in L.content_paths()}
